@@ -225,7 +225,19 @@ def c14(work, tier, seed):
     tres = vlib.run_many(text, range(4 if tier == "quick" else 12))
     rep.traces += sum(r.nlines for r in tres)
     vlib.absorb_trace_results(rep, tres)
-    rep.assumptions = ["board.Board with fen.Encode is exactly what Engine.Position() reports (engine.go); the engine path itself is exercised by C10"]
+    # Engine.Position() after Engine.Reset / Move / TakeBack called directly (also after calls that fail)
+    def api(i):
+        trace = work.path("engapi%d.ndjson" % i)
+        vlib.run_harness(work, vh, ["ucipos", "-api", "-seed", seed * 100 + 90 + i, "-n", 60 if tier == "quick" else 2500, "-cmds", 5 if i % 2 == 0 else 8, "-out", trace])
+        r = vlib.validate_trace(work, "TraceUciPos", ["C14"], trace, timeout=3300, heap="2g" if tier == "quick" else "4g")
+        r.stats = {"engine-api:" + k: sum(1 for line in open(trace) if '"kind":"%s"' % k in line) for k in ("reset", "move", "takeback")}
+        return r
+    ares = vlib.run_many(api, range(2 if tier == "quick" else 8))
+    for r in ares:
+        rep.counters(r.stats)
+    vlib.absorb_trace_results(rep, ares)
+    require(rep, ["engine-api:reset", "engine-api:move", "engine-api:takeback"], "C14")
+    rep.assumptions = ["the position command path of the engine is exercised by C10; here the engine is driven through Reset / Move / TakeBack directly"]
     return rep.finish(work)
 
 
